@@ -238,6 +238,28 @@ C11_LinearExact(g, alpha, beta, F) ==
          xf(b) == IF b = a THEN Face(g, a, f[a]) ELSE Centre(g, b, f[b])
      IN  F[id] = RAdd(alpha, RSumSet(Axes(g), LAMBDA b : RMul(beta[b], xf(b))))
 
+-----------------------------------------------------------------------------
+(* C07 - discrete maximum principle.  With a discretely divergence-free velocity the spatial
+   operator  A = -Diffusion(D) + Upwind(u) + diag(beta), D >= 0, beta >= 0, has non-positive
+   off-diagonal entries (ghost columns included), a non-negative diagonal, and the rows of
+   -Diffusion + Upwind sum to zero; with the transient diagonal alpha/dt > 0 and ghost values
+   that are either the interior neighbour (no flux), a periodic image, or 2c - neighbour
+   (Dirichlet), every new cell value is a convex combination of old values, neighbours and
+   Dirichlet data: no overshoot.                                                            *)
+C07_SignStructure(g, Mdiff, Mup, Msrc) ==
+  LET S == MSub(Mup, Mdiff)
+      A == MAdd(S, Msrc)
+  IN  \A P \in Interior(g) :
+        /\ \A p \in MRow(A, P) : p[2] # P => RLe(A[p], RZero)
+        /\ RGe(MGet(A, P, P), RZero)
+        /\ RIsZero(RowSum(S, P))
+\* direct observation (fixed point, 1e-6 units): new values within [lo, hi]
+C07_Hull(steps) ==
+  \A k \in 1..Len(steps) :
+     /\ steps[k].finite
+     /\ steps[k].mn >= steps[k].lo - 2
+     /\ steps[k].mx <= steps[k].hi + 2
+
 \* the reference mesh record (what the documentation promises)
 RefMesh(g) ==
   [dims        |-> Dims(g),
